@@ -125,3 +125,186 @@ def i1(prog):
                          "msg": "%s wraps a DIE obtained by moving inside the unit (%s) in a value_die WITHOUT the import chain of the DIE it came from: for a cooked DIE inside an imported partial unit, `parent`/`root` lose the importing unit" % (f["q"], prov[1]),
                          "detail": info})
     return inst, findings
+
+
+# ---------------------------------------------------------------------------
+# G1: one exclusion predicate for attribute integration
+
+def g1(prog):
+    from r_scope import switch_groups
+    inst, findings = [], []
+    pred = prog.func_opt("(anonymous namespace)::attr_should_be_integrated")
+    if pred is None:
+        raise Broken("anchor attr_should_be_integrated vanished")
+    sw = [x for x in walk(pred["body"]) if x.get("k") == "switch"]
+    if len(sw) != 1:
+        raise Broken("attr_should_be_integrated is no longer one switch (unmodelled shape)")
+    excluded = set()
+    default_true = None
+    for labels, stmts in switch_groups(sw[0]):
+        rets = [x for s in stmts for x in walk(s) if x.get("k") == "return"]
+        val = unwrap(rets[0]["e"]).get("v") if rets and isinstance(unwrap(rets[0]["e"]), dict) else None
+        for l in labels:
+            if l == "default":
+                default_true = val
+            elif val is False:
+                excluded.add(unwrap(l).get("n") or unwrap(l).get("q"))
+    key = "G1:attr_should_be_integrated"
+    inst.append((key, {"excluded": sorted(excluded), "default_integrates": default_true}))
+    if excluded != {"DW_AT_sibling", "DW_AT_declaration"} or default_true is not True:
+        findings.append({"key": key, "where": pred["l"],
+                         "msg": "the integration predicate excludes %s (documented: DW_AT_sibling and DW_AT_declaration only) / default integrates=%s" % (sorted(excluded), default_true),
+                         "detail": None})
+    users = []
+    for f in prog.funcs.values():
+        if not prog.rel(f["file"]).startswith("libzwerg/") or "test-" in f["file"]:
+            continue
+        if f is pred:
+            continue
+        from cfg import contains_assert
+        refs = []
+        body = f.get("body")
+        if body is None:
+            continue
+
+        def rec(n):
+            if isinstance(n, list):
+                for x in n:
+                    rec(x)
+                return
+            if not isinstance(n, dict):
+                return
+            if n.get("k") in ("cond", "call") and contains_assert(n):
+                return
+            if n.get("k") == "ref" and n.get("d") == "enum" and n.get("n") in ("DW_AT_specification", "DW_AT_abstract_origin"):
+                if not any(m.startswith(("DWARF_ONE_KNOWN", "DWARF_ALL_KNOWN")) for m in (n.get("macs") or [])):
+                    refs.append(n)       # (references expanded from the constant-name tables are not navigation)
+            for v in n.values():
+                if isinstance(v, (dict, list)):
+                    rec(v)
+        rec(body)
+        if not refs:
+            continue
+        uses = any(c.get("fn") == "attr_should_be_integrated" for c in calls(body))
+        key = "G1:" + f["q"]
+        users.append(f["q"])
+        inst.append((key, {"consults_predicate": uses}))
+        if not uses:
+            findings.append({"key": key, "where": f["l"],
+                             "msg": "%s follows DW_AT_specification/DW_AT_abstract_origin but does not consult attr_should_be_integrated: `attribute` and `@AT_x`/`?AT_x` would integrate different attribute sets" % f["q"],
+                             "detail": None})
+    if len(users) < 2:
+        raise Broken("fewer functions following specification/abstract_origin than confirmed by hand (2)")
+    return inst, findings
+
+
+# ---------------------------------------------------------------------------
+# V2: family agreement (sugar words, label/form producers and named constants share code and domain)
+
+FAMILY_SOURCES = {
+    "dwarf_tag": "TAG", "dwarf_getabbrevtag": "TAG",
+    "dwarf_whatattr": "AT", "dwarf_whatform": "FORM",
+}
+FAMILY_FIELDS = {("(anonymous)", "atom"): "OP", ("Dwarf_Op", "atom"): "OP", ("value_abbrev_attr", "name"): "AT", ("value_abbrev_attr", "form"): "FORM"}
+
+
+def _value_family(f, e, depth=0):
+    u = unwrap(e)
+    if not isinstance(u, dict) or depth > 3:
+        return None
+    if u.get("k") == "cast":
+        return _value_family(f, u.get("e"), depth + 1)
+    if u.get("k") == "call" and u.get("fn") in FAMILY_SOURCES:
+        return FAMILY_SOURCES[u["fn"]]
+    if u.get("k") == "mem" and (u.get("c"), u["n"]) in FAMILY_FIELDS:
+        return FAMILY_FIELDS[(u.get("c"), u["n"])]
+    if u.get("k") == "ref" and u.get("d") == "local":
+        for x in walk(f.get("body")):
+            if x.get("k") == "decl":
+                for v in x["vars"]:
+                    if v["id"] == u["id"] and v.get("init") is not None:
+                        return _value_family(f, v["init"], depth + 1)
+    return None
+
+
+def v2(prog):
+    from r_tables import expand_calls, dom_of
+    inst, findings = [], []
+    # (1) the domain registered for each family's named constants, from the add_dw_* lambdas
+    voc = [f for f in prog.funcs.values() if f["n"] == "dwgrep_vocabulary_dw" or f["q"].endswith("dwgrep_vocabulary_dw")]
+    if len(voc) != 1:
+        raise Broken("anchor dwgrep_vocabulary_dw vanished")
+    voc = voc[0]
+    fam_dom = {}
+    fam_lambda = {}
+    for x in walk(voc["body"]):
+        if x.get("k") == "decl":
+            for v in x["vars"]:
+                i = unwrap(v.get("init"))
+                if isinstance(i, dict) and i.get("k") == "lambda" and v["n"].startswith("add_dw_"):
+                    fam = {"add_dw_at": "AT", "add_dw_tag": "TAG", "add_dw_form": "FORM", "add_dw_op": "OP"}.get(v["n"])
+                    if fam:
+                        fam_lambda[fam] = (v, i)
+    if set(fam_lambda) != {"AT", "TAG", "FORM", "OP"}:
+        raise Broken("registration lambdas add_dw_at/tag/form/op not all found (unmodelled shape): %s" % sorted(fam_lambda))
+    for fam, (v, lam) in sorted(fam_lambda.items()):
+        code = lam["params"][0]
+        doms = set()
+        problems = []
+        for c in calls(lam["body"], lambdas=False):
+            if c.get("fn") == "add_builtin_constant":
+                k = unwrap(c["a"][1])
+                a0 = unwrap(k["a"][0])
+                d = dom_of(k["a"][1])
+                doms.add(d[0] if d else None)
+                if not (isinstance(a0, dict) and a0.get("k") == "ref" and a0.get("id") == code["id"]):
+                    problems.append("named constant of family %s is not built from the lambda's `%s` parameter at %s" % (fam, code["n"], c["l"]))
+            if c.get("fn") in ("add_pred_overload", "add_op_overload"):
+                for a in c["a"]:
+                    ua = unwrap(a)
+                    if not (isinstance(ua, dict) and ua.get("k") == "ref" and ua.get("id") == code["id"]):
+                        problems.append("%s<%s> in family %s is not built from `%s` at %s" % (c["fn"], (c.get("targs") or ["?"])[0], fam, code["n"], c["l"]))
+        if len(doms) != 1:
+            raise Broken("family %s registers constants in %d domains" % (fam, len(doms)))
+        fam_dom[fam] = doms.pop()
+        inst.append(("V2:lambda:" + fam, {"domain": fam_dom[fam], "code_param": code["n"]}))
+        for p in problems:
+            findings.append({"key": "V2:lambda:" + fam, "where": v["l"], "msg": p, "detail": None})
+        # predicate classes on constants registered in this lambda: their m_const domain
+        for c in calls(lam["body"], lambdas=False):
+            if c.get("fn") == "add_pred_overload" and c.get("targs"):
+                cls = c["targs"][0]
+                for g in prog.funcs.values():
+                    if g.get("cls") == cls and g.get("isctor"):
+                        for i in g.get("inits", []):
+                            if i.get("field") == "m_const":
+                                for y in walk(i["init"]):
+                                    d = dom_of(y) if y.get("k") == "un" else None
+                                    if d:
+                                        key = "V2:%s::m_const" % cls
+                                        inst.append((key, {"domain": d[0], "family": fam}))
+                                        if d[0] != fam_dom[fam]:
+                                            findings.append({"key": key, "where": g["l"],
+                                                             "msg": "%s (registered as ?%s_x on constants) compares in domain %s but the family's named constants live in %s: `DW_%s_x ?%s_x` would never hold" % (cls, fam, d[0], fam_dom[fam], fam, fam),
+                                                             "detail": None})
+    # (2) every producer that builds a constant from a family's libdw source uses that family's domain
+    n = 0
+    for f in prog.funcs.values():
+        if not prog.rel(f["file"]).startswith("libzwerg/builtin-dw"):
+            continue
+        for x in walk(f.get("body")):
+            if x.get("k") in ("ctor", "ilist") and (x.get("c") == "constant" or x.get("t") == "constant") and len(x.get("a", [])) >= 2 and not x.get("cm"):
+                fam = _value_family(f, x["a"][0])
+                d = dom_of(x["a"][1])
+                if fam is None or d is None:
+                    continue
+                n += 1
+                key = "V2:%s@%s" % (f["q"], x.get("l", "?"))
+                inst.append((key, {"family": fam, "domain": d[0]}))
+                if d[0] != fam_dom[fam]:
+                    findings.append({"key": "V2:%s" % f["q"], "where": x.get("l") or f["l"],
+                                     "msg": "%s yields a %s code in domain %s, but ?%s_x / DW_%s_x use %s: `label == DW_%s_x` would be false for every value" % (f["q"], fam, d[0], fam, fam, fam_dom[fam], fam),
+                                     "detail": None})
+    if n < 6:
+        raise Broken("only %d family-valued constant producers found (floor 6)" % n)
+    return inst, findings
